@@ -302,6 +302,10 @@ func isIndexOp(k string) bool {
 // C06's; differences in index definitions also belong to the index (C15) and
 // TTL (C19) properties when their checks see them.
 func attributeRestart(prop, detail string) *Violation {
+	if prop == "C15" && strings.Contains(detail, "exists in the model but not in the database") {
+		// a collection that vanished took its index definitions with it
+		return violation("C15", "indexes-differ-after-reload", "collection-lost", detail)
+	}
 	if strings.Contains(detail, "index") {
 		switch prop {
 		case "C15":
